@@ -336,6 +336,7 @@ def mergeVals (vals : List Rat) (map : List Nat) (newN : Nat) : List Rat :=
 
 /-- `merge_bins` in place, with an explicit bin map (monotone, onto an initial segment) -/
 def mergeWithMap (fo : FloatOps) (h : H1) (map : List Nat) : R H1 := do
+  if map.isEmpty then throw "empty bin map"      -- `max()` of an empty bin map: a histogram without bins
   let bins := h.bins fo
   let newBins ← mergeBinsAux (bins.zip map) none
   let newN := newBins.length
